@@ -652,3 +652,275 @@ Example sorted_stack_example :
   select_latest vcmp_real (find_by_expr vmatch_real tie_db (lit "foo") (lit "== 1.0") (lit "Linux64"))
   = Some (mkFound (lit "s2") (lit "foo") (lit "1.00") (lit "Linux64")).
 Proof. vm_compute. repeat split. Qed.
+
+(* ================================================================== extension: user tags, --vro, LOCAL:, tag files *)
+
+(* Model/ResolveExt.v.  A stack [sx] is a stack of Model/Resolve.v (sx_base) together with the chain entries of the
+   user's tag directory for it (sx_user: EUPS_USERDATA/_caches_/stack/product/tag.chain).  A [world] is the stacks, the
+   directories that exist and the files that VRO words may name, with their lines.  [find_from_vro_x] /
+   [resolve_request_x] are findProductFromVRO / the loops of Eups.setup in such a world - they can raise (a tag file that
+   names a version no stack declares, a malformed line); [select_vro_x] is Eups.selectVRO with the words of --vro and
+   with file words; [designates_in_x] is the designation rule with the three new clauses.  [flatten c d] are the same
+   stacks as Model/Resolve.v sees them when the reachable entries of the user's directories are appended to the chains. *)
+From Eupsv Require Import Model.ResolveExt Proofs.ResolveExt.
+
+(* ------------------------------------------------------------------ user tags *)
+
+(* where the assignments of a user tag live: in the user's directory for the stack, unless the stack itself holds a
+   chain file of that name for the product; a tag that is not a user tag never reads the user's directory *)
+Theorem user_tag_lives_in_user_directory c sx n f t :
+  (is_user_tag c t = true -> has_chain_file (st_chain (sx_base sx)) n t = false ->
+   chain_version_x c sx n f t = chain_lookup (sx_user sx) n f t) /\
+  (is_user_tag c t = false -> chain_version_x c sx n f t = chain_version (sx_base sx) n f t).
+Proof. split; [apply chain_version_x_user|apply chain_version_x_global]. Qed.
+Print Assumptions user_tag_lives_in_user_directory.
+
+(* a tag entry, user tag or not: the first stack on the path in which the tag names a version whose record exists *)
+Theorem user_tag_designation vcmp c d n t f :
+  str_eqb t (lit "latest") = false -> str_eqb t (lit "setup") = false ->
+  find_tagged_x vcmp c d n t f = tag_designates_x c d n t f.
+Proof. intros L S. unfold find_tagged_x. rewrite L, S. apply find_chain_tagged_x_spec. Qed.
+Print Assumptions user_tag_designation.
+
+Theorem user_tag_first_stack_wins c d1 sx d2 n t v f :
+  (forall s' v', In s' d1 -> chain_version_x c s' n f t = Some v' -> declared (sx_base s') n v' f = false) ->
+  chain_version_x c sx n f t = Some v -> declared (sx_base sx) n v f = true ->
+  find_chain_tagged_x c (d1 ++ sx :: d2) n t f = Some (found_in (sx_base sx) n v f).
+Proof. apply find_chain_tagged_x_first. Qed.
+Print Assumptions user_tag_first_stack_wins.
+
+(* user tags are chain entries: in a world of stacks only (no tag file, no directory) the extended walk and the extended
+   resolution are those of Model/Resolve.v over the flattened stacks - for every earlier choice, depth and VRO; and the
+   tag rule of Model/ResolveSpec.v over the flattened stacks is the rule with the user's directories *)
+Theorem user_tags_are_chain_entries vcmp vmatch c d keep prev f flavors depth vro rq :
+  find_from_vro_x vcmp vmatch c (plain_world d) prev f depth vro rq =
+    Ok (find_from_vro vcmp vmatch c (flatten c d) prev f depth vro rq) /\
+  resolve_request_x vcmp vmatch c (plain_world d) keep prev flavors depth vro rq =
+    resolve_request vcmp vmatch c (flatten c d) keep prev flavors depth vro rq /\
+  (forall n t, tag_designates (flatten c d) n t f = tag_designates_x c d n t f) /\
+  (wf_dbx d = true -> wf_db (flatten c d) = true) /\
+  names_of (flatten c d) (rq_name rq) = names_of (base_db d) (rq_name rq).
+Proof.
+  split; [apply find_from_vro_plain|]. split; [apply resolve_plain|]. split; [intros; apply tag_designates_flat|].
+  split; [apply wf_flatten|apply names_of_flat].
+Qed.
+Print Assumptions user_tags_are_chain_entries.
+
+(* so every theorem above holds with user tags; the two most used, restated: the resolution of Eups.setup returns what
+   the designation rule names, and a user tag given with -t decides whatever version a table names *)
+Theorem resolve_is_designation_user_tags vcmp vmatch c d keep flavors depth vro rq :
+  wf_dbx d = true -> total_order_on vcmp (names_of (base_db d) (rq_name rq)) ->
+  exists r, resolve_request_x vcmp vmatch c (plain_world d) keep None flavors depth vro rq = Ok r /\
+            option_map fst r = designates vcmp vmatch c (flatten c d) flavors depth vro rq.
+Proof.
+  intros WF HT. rewrite resolve_plain. apply resolve_is_designation; [now apply wf_flatten|now rewrite names_of_flat].
+Qed.
+Print Assumptions resolve_is_designation_user_tags.
+
+Theorem user_pretag_overrides vcmp vmatch c d f depth pre t rest rq p :
+  wf_dbx d = true -> forallb is_inert pre = true ->
+  recognized c t = true -> str_eqb t (lit "latest") = false -> str_eqb t (lit "setup") = false ->
+  tag_designates_x c d (rq_name rq) t f = Some p ->
+  find_from_vro_x vcmp vmatch c (plain_world d) None f depth (pre ++ ETag t :: rest) rq = Ok (Some (p, (ETag t, None))).
+Proof.
+  intros WF HI R L S T. rewrite find_from_vro_plain. f_equal.
+  apply pretag_overrides; auto; [now apply wf_flatten|now rewrite tag_designates_flat].
+Qed.
+Print Assumptions user_pretag_overrides.
+
+(* ------------------------------------------------------------------ the extended walk is the extended designation *)
+
+(* every world: user tags, tag files, LOCAL: versions.  Hypotheses: well-formed stacks (as before, and no chain file
+   named keep in the user's directories), the comparator a total order on the declared names of the product, no file is
+   called keep, and a relational request does not begin with LOCAL:.  Errors are part of the statement: the walk raises
+   exactly when the rule says the VRO cannot be read (a tag file that lists the product with a version no stack declares,
+   or a malformed line in front of the product's line). *)
+Theorem walk_x_is_designation vcmp vmatch c w f depth vro rq :
+  wf_dbx (w_db w) = true -> total_order_on vcmp (names_of (base_db (w_db w)) (rq_name rq)) ->
+  is_file (w_files w) (lit "keep") = false ->
+  (forall v, Resolve.truthy (rq_version rq) = Some v -> Resolve.is_expr v = true -> is_local v = false) ->
+  res_map (option_map fst) (find_from_vro_x vcmp vmatch c w None f depth vro rq) =
+  designates_in_x vcmp vmatch c w (rq_name rq) (classify rq) f vro.
+Proof. intros WF HT NK NL. now apply walk_x_designates. Qed.
+Print Assumptions walk_x_is_designation.
+
+(* ------------------------------------------------------------------ tag files *)
+
+(* a tag file in front of the version entries (only commandLine, path, warn entries before it) that lists the product
+   with a declared version decides, whatever version or expression the request names: -t file overrides table versions *)
+Theorem tagfile_overrides_versions vcmp vmatch c w rq f depth pre t lines v rest p :
+  forallb is_inert_x pre = true ->
+  alookup t (w_files w) = Some lines -> tf_lookup lines (rq_name rq) = Ok (Some v) -> Resolve.is_expr v = false ->
+  version_designates (base_db (w_db w)) (rq_name rq) v f = Some p ->
+  find_from_vro_x vcmp vmatch c w None f depth (pre ++ ETag t :: rest) rq = Ok (Some (p, (ETag t, None))).
+Proof. apply tagfile_hit. Qed.
+Print Assumptions tagfile_overrides_versions.
+
+(* a tag file that lists the product with a version that no stack declares (for the flavor tried) never falls through
+   to the entries after it: the walk raises.  A file that does not list the product is passed over. *)
+Theorem tagfile_never_falls_through vcmp vmatch c w rq f depth pre t lines rest :
+  forallb is_inert_x pre = true -> alookup t (w_files w) = Some lines ->
+  (forall v, tf_lookup lines (rq_name rq) = Ok (Some v) -> Resolve.is_expr v = false -> is_local v = false ->
+     version_designates (base_db (w_db w)) (rq_name rq) v f = None ->
+     find_from_vro_x vcmp vmatch c w None f depth (pre ++ ETag t :: rest) rq = Err Crash) /\
+  (tf_lookup lines (rq_name rq) = Ok None ->
+     vro_loop_x vcmp vmatch c w None rq f depth (ETag t :: rest) = vro_loop_x vcmp vmatch c w None rq f depth rest).
+Proof.
+  intros HI HF. split.
+  - intros v HL HE HLo HV. eapply tagfile_miss_raises; eauto.
+  - intro HL. eapply tagfile_silent_passes; eauto.
+Qed.
+Print Assumptions tagfile_never_falls_through.
+
+(* ------------------------------------------------------------------ LOCAL: versions *)
+
+(* a dependency that names LOCAL:dir, declared in no stack: answered from the directory when it exists, with the reason
+   path from version; when it does not exist the request fails like any other named version (nothing after the last
+   version-like entry is consulted) *)
+Theorem local_version_designated vcmp vmatch c w rq f d pre v post :
+  forallb is_inert_x pre = true ->
+  Resolve.truthy (rq_version rq) = Some v -> Resolve.is_expr v = false -> is_local v = true ->
+  version_designates (base_db (w_db w)) (rq_name rq) v f = None ->
+  (mem_str (local_dir v) (w_dirs w) = true ->
+   find_from_vro_x vcmp vmatch c w None f (S d) (pre ++ EVersion :: post) rq =
+   Ok (Some (local_found (rq_name rq) v, (ETag (lit "path from version"), Some v)))) /\
+  (mem_str (local_dir v) (w_dirs w) = false -> existsb is_version_like post = false ->
+   find_from_vro_x vcmp vmatch c w None f (S d) (pre ++ EVersion :: post) rq = Ok None).
+Proof.
+  intros HI TV HE HL HV. split.
+  - intro HD. now apply local_version_walk.
+  - intros HD HP. now apply (local_missing_fails vcmp vmatch c w rq f (S d) pre v post).
+Qed.
+Print Assumptions local_version_designated.
+
+(* ------------------------------------------------------------------ an explicit VRO *)
+
+(* --vro and -t exclude each other; -T needs a version-like entry in the words of --vro to be placed after (the code
+   raises UnboundLocalError otherwise) *)
+Theorem explicit_vro_refuses_tags c files o w0 ws t ts :
+  o_tags o = t :: ts -> select_vro_x c files o (Some (w0 :: ws)) = Err Crash.
+Proof. apply select_vro_x_refuses_tags. Qed.
+Print Assumptions explicit_vro_refuses_tags.
+
+Theorem explicit_vro_posttags_need_version_entry c files o w0 ws :
+  o_tags o = [] -> o_posttags o <> [] ->
+  existsb is_version_like (map parse_entry (w0 :: ws)) = false ->
+  select_vro_x c files o (Some (w0 :: ws)) = Err Crash.
+Proof. apply select_vro_x_posttag_crash. Qed.
+Print Assumptions explicit_vro_posttags_need_version_entry.
+
+(* ------------------------------------------------------------------ --exact and what was named with -t *)
+
+(* makeVroExact as repaired (proposed_fixes/C03-exact-keeps-tagfile.diff): the entries that stay are the VRO without
+   the movable ones, in their order, and nothing that was named with -t - registered tag or tag file, written plain or as
+   file:name - is among the moved ones *)
+Definition stays (c : config) (cmd : list str) (v : entry) : bool :=
+  (mem_str (entry_base v) cmd || mem_str (entry_str v) cmd) ||
+  negb (negb (recognized c (entry_base v)) || global_or_user c (entry_base v)).
+
+Theorem exact_keeps_commandline_words c cmd l kept moved b :
+  exact_split_x c cmd l [] [] false = (kept, moved, b) ->
+  kept = filter (stays c cmd) l /\
+  (forall v, In v moved -> mem_str (entry_str v) cmd = false /\ mem_str (entry_base v) cmd = false).
+Proof.
+  intro E. destruct (exact_split_x_keeps c cmd l [] [] false kept moved b E) as [K1 K2]; [intros ? []|].
+  split; [exact K2|exact K1].
+Qed.
+Print Assumptions exact_keeps_commandline_words.
+
+(* ------------------------------------------------------------------ examples for the extension *)
+
+Definition xs1 : stackx :=
+  mkStackx (mkStack (lit "s1") [(lit "foo", lit "1.0", lit "Linux64"); (lit "foo", lit "2.0", lit "Linux64")]
+                    [(lit "foo", lit "Linux64", lit "current", lit "2.0")])
+           [(lit "foo", lit "Linux64", lit "ut2", lit "1.0"); (lit "foo", lit "Linux64", lit "mine", lit "3.0")].
+Definition xs2 : stackx :=
+  mkStackx (mkStack (lit "s2") [(lit "foo", lit "1.0", lit "Linux64"); (lit "foo", lit "1.1", lit "Linux64")]
+                    [(lit "foo", lit "Linux64", lit "current", lit "1.0")])
+           [(lit "foo", lit "Linux64", lit "mine", lit "1.1"); (lit "foo", lit "Linux64", lit "ut2", lit "1.1")].
+Definition x_cfg : config := site_config [lit "beta"] [lit "root"; lit "mine"; lit "ut2"].
+Definition x_files : list (str * list str) :=
+  [(lit "/t/tf1", [lit "# release"; lit "| bar 1.0"; lit "  foo   1.1  and more"]);
+   (lit "/t/tf2", [lit "foo 7.7"]); (lit "/t/tf3", [lit "bar 1.0"; lit "lonely"; lit "foo 1.0"])].
+Definition x_world : world := mkWorld [xs1; xs2] [lit "/t/ld1"] x_files.
+Definition x_opts (exact : bool) (ts ps : list str) : opts := mkOpts false exact false ts ps false false.
+Definition x_vro (exact : bool) (ts ps : list str) (u : option (list str)) : list entry :=
+  match select_vro_x x_cfg x_files (x_opts exact ts ps) u with Ok v => v | Err _ => [] end.
+Definition x_walk (vro : list entry) (v : option str) :=
+  find_from_vro_x vcmp_simple vmatch_simple x_cfg x_world None (lit "Linux64") 1 vro (ex_rq v None).
+Definition x_found (s v : string) (e : entry) : res (option (found * reason)) :=
+  Ok (Some (mkFound (lit s) (lit "foo") (lit v) (lit "Linux64"), (e, None))).
+Arguments x_found (s v)%string e.
+
+Example x_hypotheses :
+  wf_dbx (w_db x_world) = true /\ total_order_on vcmp_simple (names_of (base_db (w_db x_world)) (lit "foo")) /\
+  is_file (w_files x_world) (lit "keep") = false.
+Proof. split; [reflexivity|]. split; [|reflexivity]. apply total_orderb_sound. vm_compute. reflexivity. Qed.
+
+(* -t mine: the chain of the user's directory for s1 is dangling (3.0), so s2 answers; it overrides the table version
+   1.0; -t ut2: s1 answers; -T mine applies only without a version; an undeclared version fails although mine matches *)
+Example x_user_tags :
+  x_walk (x_vro false [lit "mine"] [] None) None = x_found "s2" "1.1" (ETag (lit "mine")) /\
+  x_walk (x_vro false [lit "mine"] [] None) (Some (lit "1.0")) = x_found "s2" "1.1" (ETag (lit "mine")) /\
+  x_walk (x_vro false [lit "ut2"] [] None) None = x_found "s1" "1.0" (ETag (lit "ut2")) /\
+  x_walk (x_vro false [] [lit "mine"] None) None = x_found "s2" "1.1" (ETag (lit "mine")) /\
+  x_walk (x_vro false [] [lit "mine"] None) (Some (lit "5.0")) = Ok None /\
+  x_vro false [lit "mine"] [] None =
+    [EType (lit "exact"); ECommandLine; ETag (lit "mine"); EVersion; EVersionExpr; ETag (lit "current")].
+Proof. vm_compute. repeat split. Qed.
+
+(* an explicit VRO: read as written (keep, duplicates, warnings and unknown words aside); -t refused; -T after the last
+   version-like entry, or an error when there is none *)
+Example x_explicit_vro :
+  x_vro false [] [] (Some [lit "mine"; lit "version"; lit "versionExpr"; lit "current"]) =
+    [ETag (lit "mine"); EVersion; EVersionExpr; ETag (lit "current")] /\
+  x_vro false [] [lit "beta"] (Some [lit "version!"; lit "mine"; lit "current"; lit "warn"; lit "version"; lit "warn:3"]) =
+    [EVersionBang; ETag (lit "mine"); ETag (lit "current"); EWarn 1; EVersion; ETag (lit "beta"); EWarn 3] /\
+  select_vro_x x_cfg x_files (x_opts false [lit "beta"] []) (Some [lit "mine"; lit "current"]) = Err Crash /\
+  select_vro_x x_cfg x_files (x_opts false [] [lit "beta"]) (Some [lit "mine"; lit "current"]) = Err Crash /\
+  x_vro false [] [] (Some [lit "bogus"; lit "current"; lit "type:exact"; lit "warn:2"]) = [ETag (lit "current")] /\
+  x_walk (x_vro false [] [] (Some [lit "version!"; lit "mine"; lit "current"])) (Some (lit "5.0")) = Ok None.
+Proof. vm_compute. repeat split. Qed.
+
+(* tag files: -t file and -t file:name put the file name in front of the version entries; the file decides against a
+   table version; a file that lists an undeclared version raises, also as a -T word; a malformed line in front of the
+   product's line raises; selectVRO itself raises on such a file (its closing walk for the empty name reads it) *)
+Example x_tag_files :
+  x_vro false [lit "file:/t/tf1"] [] None =
+    [EType (lit "exact"); ECommandLine; ETag (lit "/t/tf1"); EVersion; EVersionExpr; ETag (lit "current")] /\
+  x_walk (x_vro false [lit "/t/tf1"] [] None) (Some (lit "1.0")) = x_found "s2" "1.1" (ETag (lit "/t/tf1")) /\
+  x_walk (x_vro false [lit "/t/tf2"] [] None) None = Err Crash /\
+  x_walk (x_vro false [] [lit "/t/tf2"] None) None = Err Crash /\
+  x_walk (x_vro false [] [lit "/t/tf2"] None) (Some (lit "1.0")) =
+    Ok (Some (mkFound (lit "s1") (lit "foo") (lit "1.0") (lit "Linux64"), (EVersion, Some (lit "1.0")))) /\
+  x_walk (x_vro false [lit "/t/tf3"] [] None) None = Err Crash /\
+  select_vro_w vcmp_simple vmatch_simple x_cfg x_world (x_opts false [lit "/t/tf3"] []) None (lit "Linux64") = Err Crash /\
+  tf_lookup [lit "# release"; lit "| bar 1.0"; lit "  foo   1.1  and more"] (lit "foo") = Ok (Some (lit "1.1")).
+Proof. vm_compute. repeat split. Qed.
+
+(* LOCAL: versions *)
+Example x_local :
+  x_walk (x_vro false [] [] None) (Some (lit "LOCAL:/t/ld1")) =
+    Ok (Some (local_found (lit "foo") (lit "LOCAL:/t/ld1"), (ETag (lit "path from version"), Some (lit "LOCAL:/t/ld1")))) /\
+  x_walk (x_vro false [] [] None) (Some (lit "LOCAL:/t/nodir")) = Ok None /\
+  designates_in_x vcmp_simple vmatch_simple x_cfg x_world (lit "foo") (classify (ex_rq (Some (lit "LOCAL:/t/ld1")) None))
+                  (lit "Linux64") (x_vro false [] [] None) = Ok (Some (local_found (lit "foo") (lit "LOCAL:/t/ld1"))).
+Proof. vm_compute. repeat split. Qed.
+
+(* the defect repaired by proposed_fixes/C03-exact-keeps-tagfile.diff, as it was: with --exact the pinned makeVroExact
+   (make_exact of Model/Resolve.v) moved a tag file given with -t behind the version entries, so the version 1.0 of a
+   table won over the file; a registered tag given with -t stayed in front.  The repaired one keeps both. *)
+Example exact_tagfile_refuted_pinned :
+  let v4 := [EType (lit "exact"); ECommandLine; ETag (lit "/t/tf1"); EVersion; EVersionExpr; ETag (lit "current")] in
+  make_exact x_cfg [lit "/t/tf1"] v4 =
+    [EType (lit "exact"); ECommandLine; EVersion; EVersionExpr; EWarn 1; ETag (lit "/t/tf1"); ETag (lit "current")] /\
+  x_walk (make_exact x_cfg [lit "/t/tf1"] v4) (Some (lit "1.0")) =
+    Ok (Some (mkFound (lit "s1") (lit "foo") (lit "1.0") (lit "Linux64"), (EVersion, Some (lit "1.0")))) /\
+  make_exact_x x_cfg [lit "/t/tf1"] v4 =
+    [EType (lit "exact"); ECommandLine; ETag (lit "/t/tf1"); EVersion; EVersionExpr; ETag (lit "current")] /\
+  x_vro true [lit "/t/tf1"] [] None =
+    [EType (lit "exact"); ECommandLine; ETag (lit "/t/tf1"); EVersion; EVersionExpr; ETag (lit "current")] /\
+  x_walk (x_vro true [lit "/t/tf1"] [] None) (Some (lit "1.0")) = x_found "s2" "1.1" (ETag (lit "/t/tf1")) /\
+  make_exact x_cfg [lit "mine"] [EType (lit "exact"); ECommandLine; ETag (lit "mine"); EVersion; ETag (lit "current")] =
+    [EType (lit "exact"); ECommandLine; ETag (lit "mine"); EVersion; ETag (lit "current")].
+Proof. vm_compute. repeat split. Qed.
